@@ -15,7 +15,6 @@ import (
 	"sort"
 	"strings"
 	rsync "sync"
-	"unsafe"
 )
 
 // ---------------------------------------------------------------------------------------------
@@ -139,8 +138,6 @@ type exec struct {
 
 type resetter interface{ vreset() }
 
-const stackWindow = 256 << 10
-
 var cur *exec
 
 // Active reports whether a controlled execution is running.
@@ -252,13 +249,6 @@ func access(addr uintptr, name, where string, write bool) {
 	}
 	t := e.running
 	if t == nil {
-		return
-	}
-	// Addresses on the running goroutine's own stack are not shared locations (value receivers,
-	// locals); a stack may be handed from one goroutine to another by the runtime without any
-	// synchronisation the detector could see, so they are not tracked.
-	var probe byte
-	if sp := uintptr(unsafe.Pointer(&probe)); addr >= sp && addr < sp+stackWindow {
 		return
 	}
 	s := e.mem[addr]
@@ -580,6 +570,19 @@ func SetMapOrderHook(f func([]string) []string) { mapOrderHook = f }
 // ---------------------------------------------------------------------------------------------
 // running one execution
 
+//go:noinline
+func growStack() {
+	var buf [192 << 10]byte
+	sink(buf[:])
+}
+
+//go:noinline
+func sink(b []byte) {
+	if len(b) > 0 {
+		b[0], b[len(b)-1] = 1, 1
+	}
+}
+
 // Body is the code of one controlled thread.
 type Body struct {
 	Name string
@@ -620,6 +623,11 @@ func RunOnce(bodies []Body, prefix []int, trackRaces bool, horizon int) *Executi
 				e.sched <- struct{}{}
 				<-e.finish // keep the goroutine (and its stack) alive until the execution is over
 			}()
+			// The detector keys shadow state by address, so no memory may change hands between
+			// threads inside an execution: the stack is grown once, up front (it is never shrunk
+			// because the collector is off while executions run), and the goroutine stays alive
+			// until the execution is over.
+			growStack()
 			e.yield(&pendingOp{kind: opStart, label: "start"})
 			t.body()
 		}()
